@@ -339,8 +339,9 @@ pub fn sector_input(id: usize, dim: usize, m: usize, seed: u64) -> FInput {
     for k in 0..8 {
         gens.push(at(k as f64 * step, d0 * (1.0 - 1e-3) * (1.0 + 1e-6 * k as f64)));
     }
-    for _ in 0..m {
-        let phi = rng.gen_range(0.04..0.96) * step;
+    for i in 0..m {
+        // evenly spaced (+- 20 %) over the sector: neighbours about 1e-3 apart (far from known finding F11's territory)
+        let phi = (0.04 + 0.92 * (i as f64 + 0.5 + rng.gen_range(-0.2..0.2)) / m as f64) * step;
         gens.push(at(phi, d0 * (1.0 + 1e-7 * rng.gen_range(-1.0..1.0))));
     }
     for k in 1..8 {
